@@ -110,7 +110,7 @@ def run_one(sim, params):
                         sim.probe("frame.sdres_batch")
             if not exempt:
                 if info > limit:
-                    raise Violation("frame-exceeds-miu", "+".join(sorted(set(names))),
+                    raise Violation("frame-exceeds-miu", names[0] if len(names) == 1 else "AGF(last=%s)" % names[-1],
                                     "frame %s carries an information field of %d octets, peer announced Link MIU %d "
                                     "(agf=%s); %r" % (names[:8], info, limit, src.cfg["send-agf"], desc))
                 for m in members:
